@@ -290,6 +290,19 @@ class Interp:
                 self.fired.add("global-store")
             else:
                 frame.locals[t.id] = (value, n)
+        elif isinstance(t, ast.Subscript):
+            # container store: a later read of that element depends on THIS statement (and through it on the
+            # stored value); the container object itself is shared, not copied
+            cont = self.eval(t.value, frame, n, "subscript-base")
+            key = t.slice.value
+            if isinstance(cont, Lst):
+                if not -len(cont.elems) <= key < len(cont.elems):
+                    raise Raised("IndexError")
+                cont.elems[key] = (value, n)
+            else:
+                assert isinstance(cont, Dct)
+                cont.items[key] = (value, n)
+            self.fired.add("subscript-store")
         else:
             assert isinstance(t, ast.Attribute)
             obj = self.eval(t.value, frame, n, "attribute-base")
